@@ -47,8 +47,10 @@ PROP = dict(
         "(marshalSlicesE, itemsSlices; op hm.new): fewer values than keys = Marshal error and Items/Get/Put index panic, surplus "
         "values ignored; Put on such a dictionary is not modelled",
         "value codecs are parameters: theorems assume, for the values that occur, that the decoder reads back what the encoder "
-        "wrote (DecodesValue) and that a leaf has room for the value next to a full-width label (Fits: exact bound "
-        "2 + bitlen n + n + value bits <= 1023)",
+        "wrote (DecodesValue). Success theorems additionally assume that a leaf has room for the value next to a full-width "
+        "label (Fits: 2 + bitlen n + n + value bits <= 1023 — a SUFFICIENT condition, attained by a single mixed-bit key; leaves "
+        "below forks have more room); soundness theorems (marshal_sound, marshal_unmarshal_sound, encodeMap_ok_tree) need no "
+        "size condition: whatever fits is encoded faithfully, whatever does not makes Marshal fail",
         "key width n < 2^64 (a Go int); every shipped key type has n <= 512",
     ],
     partial=[
@@ -76,7 +78,11 @@ PROP = dict(
                "marshal_sound (for ANY slice, duplicates allowed: Marshal ok => keys distinct and decode = sorted input, so colliding "
                "or out-of-domain keys can only fail, never corrupt other entries); typed layer (encIntKey_in_range, "
                "bytes_compare_is_bit_order, slices_agree); exact cell capacity (encode_never_overflows); augmented dictionaries "
-               "with extras, root extra and inline form. "
+               "with extras, root extra and inline form. Round 4: size-free soundness (encodeMap_ok_tree, marshal_unmarshal_sound, "
+               "marshal_succeeds); re-encoding a canonical tree reproduces it cell for cell, ties included (reencode_canonical); "
+               "the model's comparison is a strict total order for EVERY key type of the regenerated table and equals the typed "
+               "Go Compare of each family (every_key_type_strict_total, put_sorted_every_key_type, "
+               "typed_compare_is_model_compare). "
                "Tie: hand model, compared line by line with the real code on every run (exact tables of Marshal output, "
                "Keys/Values/Items/Get), plus direct oracles on the Go code alone.",
     level_note="trusted: Lean kernel, the hand model's correspondence harness and its independent dictionary writer, "
